@@ -693,6 +693,21 @@ func (e *fnEnc) boxComp(s Sort) (string, Sort) {
 func (e *fnEnc) elemComp(s Sort) (string, Sort) {
 	return compName("Elem", sortTag(s)), ArrayOf(SInt, ArrayOf(SInt, s))
 }
+
+// elemCompT keys the element heap by the Go element type: slices of different
+// element types cannot alias (no unsafe in the functions under contract).
+func (e *fnEnc) elemCompT(t types.Type) (string, Sort) {
+	s := e.sortOf(t)
+	name := types.TypeString(types.Unalias(t), func(p *types.Package) string { return p.Name() })
+	if b, ok := types.Unalias(t).(*types.Basic); ok {
+		name = b.Name()
+		if name == "byte" {
+			name = "uint8"
+		}
+	}
+	name = strings.NewReplacer(" ", "", "*", "p.", "[", "_", "]", "_", "{", "", "}", "", "(", "", ")", "", ",", "_", "/", "_").Replace(name)
+	return compName("Elem", name), ArrayOf(SInt, ArrayOf(SInt, s))
+}
 func (e *fnEnc) mapComps(k, v Sort) (string, Sort, string, Sort) {
 	return compName("MapDom", sortTag(k), sortTag(v)), ArrayOf(SInt, ArrayOf(k, SBool)),
 		compName("MapVal", sortTag(k), sortTag(v)), ArrayOf(SInt, ArrayOf(k, v))
@@ -715,7 +730,7 @@ func (e *fnEnc) loadLV(st *state, lv *LValue) Term {
 		base = e.loadField(st, lv.owner, lv.ref, lv.field)
 	case 2:
 		s := e.sortOf(lv.typ)
-		comp, cs := e.elemComp(s)
+		comp, cs := e.elemCompT(lv.typ)
 		base = sel(sel(e.heapGet(st, comp, cs), lv.ref, ArrayOf(SInt, s)), lv.idx, s)
 	}
 	for _, p := range lv.path {
@@ -749,7 +764,7 @@ func (e *fnEnc) storeLV(st *state, lv *LValue, v Term) {
 		e.storeField(st, lv.owner, lv.ref, lv.field, upd(cur, lv.path))
 	case 2:
 		s := e.sortOf(lv.typ)
-		comp, cs := e.elemComp(s)
+		comp, cs := e.elemCompT(lv.typ)
 		arr := e.heapGet(st, comp, cs)
 		inner := sel(arr, lv.ref, ArrayOf(SInt, s))
 		nv := upd(sel(inner, lv.idx, s), lv.path)
